@@ -101,7 +101,7 @@ CHECKS = {
         "rule": ("kinds: 'single' (one combinator/reducer, one consumer behaviour), 'pipeline' (chain of 1-4 stages + reducer), 'ctor' (constructors). non-trivial = input length >= 2 and a boundary is exercised "
                  "(parameter in {0,len-1,len,len+1}, singleton run at an edge, source ends on a chunk boundary, a pull after the end, or pipeline depth >= 2); distinct = distinct case JSON"),
         "assumptions": ["reference interpreter in c07comb", "rapid v1.3.0; go1.26.8"],
-        "jobs": [{"pkg": "c07comb", "kinds": ["single", "pipeline", "ctor"], "scale_thorough": 10, "shards_thorough": 16}],
+        "jobs": [{"pkg": "c07comb", "kinds": ["single", "pipeline", "ctor", "shared-upstream"], "scale_thorough": 10, "shards_thorough": 16}],
     },
     "C08": {
         "level": "fault_enumeration",
@@ -293,7 +293,7 @@ RULE_ADDENDA = {
     "C04": " Kind deque-elem-size: the same plans over struct{} elements and over 328-byte elements. Elements are padded pointer-holding structs so that weak pointers to popped elements can be required to clear after a GC; 'bulk_push' steps build backlogs of 1000-5000 items; iterations may be nested; Grow/Shrink arguments go up to MaxInt.",
     "C05": " Kind queue-nan-keys: float64 keys incl. NaN (entries that can be put in and popped but never addressed): Len, Contains, minimality of Pop / Peek (non-trivial = a NaN entry was popped). Kind queue-huge: one queue holding 40000-140000 keys at once, taken down to 1/3-1/64 of its peak by Removes (and Pops), refilled, drained, against a map model (always non-trivial). Priorities are ints or []int (pointer-holding); 'bulk' steps push and pop 1000-5000 items (heap and queue).",
     "C06": " Steps also include 'relocate' (the List value is moved to another address), 'bulk' (hundreds of nodes) and reuse of cleared handles; kind list-gc: nodes only reachable through the list survive three GCs with their pointer-holding payload intact.",
-    "C07": " Inputs include NaN, negative and huge counts, 1025-2600-item inputs for Chunk/Last; callbacks are counted; results must be independent of their inputs (scribbling); argument slices must be left intact; constructors are read with contexts that end before, between and during calls.",
+    "C07": " Kind shared-upstream: outer = G(inner), inner = F(src) for F, G in First / Filter / Map / CompactFunc, pulled alternately through outer, inner and src against a model with one shared source position (non-trivial = pulls through at least two of them); one case in 25 instead runs Compact / Filter over a stretch of 1-3 million dropped items with the goroutine stack limited to 64 MB. Inputs include NaN, negative and huge counts, 1025-2600-item inputs for Chunk/Last; callbacks are counted; results must be independent of their inputs (scribbling); argument slices must be left intact; constructors are read with contexts that end before, between and during calls.",
     "C09": " Kind own-real-clock (own process, real clock, no bubble: MapStream, Batch, Merge and MapStream over Batch with zero-latency sources; stop after j outputs or read to the end / error; Close within 10 s; then the ownership log of every source; non-trivial = a fault or an early stop). Kind panic-abandon: a consumer whose callback panics and whose deferred Close runs: still exactly one Close per stream.",
     "C10": " Close errors include context.Canceled / DeadlineExceeded themselves; kind pipe-gc (a properly closed sender's error survives GCs and finalizers); the package also runs for GOARCH=386.",
     "C11": " Plans also include sources whose Close takes time, batchSize MaxInt, 'long' streams of hundreds of batches with a bound on batch capacity, and BatchFunc predicates that take 2 x maxWait (old timers); a Next that has not returned after 10 s of active time is a 'stuck' violation. Kind batch-lib-source: Batch over the library's own streams (stream.Chan over a channel that may stay open, FromIterator, a Pipe, a Batch of a Batch): partition, sizes, end, and Close returning at any moment (non-trivial = at least 2 batches, or closed before the end).",
